@@ -76,6 +76,20 @@ def tokenizeS (U : Uni) : TState → Str → List Token
 
 def tokenize (U : Uni) (s : Str) : List Token := tokenizeS U .top s
 
+/-- `number.parse::<f64>().unwrap_or(0.0)` on the raw text of a Number token (characters from
+numerics, '.', '-'): the bit pattern. Accepted shapes: `-? d* (. d*)?` with at least one digit. -/
+def tokNumberBits (raw : Str) : Nat :=
+  let ng := raw.head? == some '-'
+  let body := if ng then raw.drop 1 else raw
+  let ip := body.takeWhile isDigit
+  let r1 := body.dropWhile isDigit
+  let fp := match r1 with | '.' :: r => r.takeWhile isDigit | _ => []
+  let r2 := match r1 with | '.' :: r => r.dropWhile isDigit | _ => r1
+  if !r2.isEmpty || (ip.isEmpty && fp.isEmpty) then 0 else
+  match f64OfDec ng ip fp with
+  | some b => b
+  | none => (if ng then 2 ^ 63 else 0) + 2047 * 2 ^ 52
+
 /-! ## Commands -/
 inductive Cmd1 where
   | query (q : Query)
